@@ -85,6 +85,11 @@ class Resolver:
             sd = body.single_def(l)
             if sd and sd[2].get("k") == "binop" and sd[2]["op"].endswith("WithOverflow"):
                 return self.lin_binop(sd[2], depth + 1)
+        # component of a tuple (or struct) literal held in a single-definition local: that operand
+        if len(proj) == 1 and isinstance(proj[0], dict) and "f" in proj[0]:
+            sd = body.single_def(l)
+            if sd and sd[2].get("k") == "agg" and sd[2].get("agg") in ("tuple", "adt") and proj[0]["f"] < len(sd[2]["ops"]):
+                return self.lin(sd[2]["ops"][proj[0]["f"]], depth + 1)
         # deref of a single-def reference
         if proj[0] == "*" and len(proj) == 1:
             sd = body.single_def(l)
